@@ -5,6 +5,10 @@ import Drivers.SchedCommon
 Driver for C09: runs the `queue<T>` model (kind `q`) or the `queue<void>` model (kind `vq`) on the harness input
 (same grammar as harness/h_queue.cpp, `run_qcase`).
 
+An optional token after the kind selects the template arguments (`q nl|s1|w1|s1w1|w1m`, `vq nl|w1`): `s1` / `w1` make the
+item store / the store of parked promises a `primitives::single_item_queue` (capacity 1 in the model: the operation that
+would over-fill it is refused, `push full` / `pop full`), `nl` (implied by `s1`, `w1`) is `primitives::no_lock`.
+
 Future-based pops (`pop`) carry the consumer label 0.  `cons n` starts a coroutine consumer (labels 1,2,…) that pops
 up to `n` times, re-issuing `pop()` the moment its previous pop was resolved with a value (inside the resumption,
 i.e. before the operation that woke it returns) and stopping at the first exception.  The sequential harness has no
@@ -122,6 +126,10 @@ def headOf (op : Op) (r : Res) : String :=
   | Res.num n => s!"size {n}"
   | Res.unit => "destroy"
   | Res.threw => "pushthrow threw"
+  | Res.full => (match op with
+      | Op.pop _ => "pop full"
+      | Op.pushthrow => "pushthrow full"
+      | _ => "push full")
   | Res.bad => "bad-op"
 
 partial def caseLoop {σ} (m : Mach σ) (lines : Array String) (i : Nat) (d : DState σ) : IO Nat := do
@@ -229,13 +237,20 @@ def schedModel {σ} (m : Mach σ) (void : Bool) : Sched.Model (SSt σ) where
 partial def loop (lines : Array String) (i : Nat) : IO Unit := do
   if h : i < lines.size then
     match words lines[i] with
-    | ("case" :: id :: "q" :: _) =>
+    | ("case" :: id :: "q" :: cfg) =>
         IO.println s!"case {id}"
-        let j ← caseLoop machQ lines (i+1) { st := Q.init }
+        -- configuration token: Queue / CoroQueue = single_item_queue (capacity 1); the Lock argument has no model state
+        let (cap, wcap) : Option Nat × Option Nat := match cfg with
+          | ["s1"] => (some 1, none)
+          | ["w1"] => (none, some 1)
+          | ["w1m"] => (none, some 1)
+          | ["s1w1"] => (some 1, some 1)
+          | _ => (none, none)
+        let j ← caseLoop machQ lines (i+1) { st := Q.initCfg cap wcap }
         loop lines j
-    | ("case" :: id :: "vq" :: _) =>
+    | ("case" :: id :: "vq" :: cfg) =>
         IO.println s!"case {id}"
-        let j ← caseLoop machV lines (i+1) { st := VQ.init, void := true }
+        let j ← caseLoop machV lines (i+1) { st := VQ.initCfg (if cfg == ["w1"] then some 1 else none), void := true }
         loop lines j
     | ("case" :: id :: "sq" :: _) =>
         IO.println s!"case {id}"
